@@ -76,6 +76,63 @@ pub fn c15(tier: &str, seed: u64) {
     if restored.serialize_to_bincode().ok().as_deref() != Some(&bytes[..]) {
       fail("pk_reserialise_differs", &[("n", n.to_string()), ("bytes", hex(&bytes))]);
     }
+    // decoding is a function of the BYTES GIVEN, not of what was decoded before: right after this
+    // successful load, encodings of the same length with the same base key but other entries (two
+    // points exchanged, one tag renamed, one more entry announced than present) decode on their own
+    if n >= 2 && (n <= 6 || n % 32 == 1 || !q) {
+      let ent = |i: usize| 40 + 33 * i;
+      let mut variants: Vec<(&str, Vec<u8>, bool)> = Vec::new();
+      let mut v = bytes.clone();
+      let (a, b) = (ent(0) + 1, ent(1) + 1);
+      for k in 0..32 {
+        v.swap(a + k, b + k);
+      }
+      variants.push(("points of the first two tags exchanged", v, true));
+      if let Some(unused) = (0..=255u8).find(|x| !mds.contains(x)) {
+        let mut v = bytes.clone();
+        v[ent(n - 1)] = unused;
+        variants.push(("tag of the last entry renamed to an unused tag", v, true));
+      }
+      let mut v = bytes.clone();
+      v[32..40].copy_from_slice(&((n as u64) + 1).to_le_bytes());
+      variants.push(("one more entry announced than present", v, false));
+      let unrelated = Server::new(vec![1]).ok().and_then(|s| s.get_public_key().serialize_to_bincode().ok()).unwrap_or_default();
+      for (what, v, valid) in variants {
+        // reference: the variant decoded right after an UNRELATED key (another base key and length)
+        let _ = try_pk(&unrelated);
+        let reference = try_pk(&v);
+        // then: the honest encoding of the same length and base key loaded immediately before, as a
+        // verifying client that reloads keys would
+        let _ = try_pk(&bytes);
+        let got = try_pk(&v);
+        let hist = "the honest encoding of the same length and base key was loaded immediately before";
+        match (&reference, &got) {
+          (None, _) | (_, None) => fail("pk_load_panic", &ctx(what)),
+          (Some(Ok(a)), Some(Ok(b))) => {
+            if a != b {
+              fail("pk_load_depends_on_history", &[("n", n.to_string()), ("what", what.to_string()), ("history", hist.into()), ("bytes", hex(&v)), ("loaded_key_reserialises_to", b.serialize_to_bincode().map(|x| hex(&x)).unwrap_or_default()), ("without_that_history", a.serialize_to_bincode().map(|x| hex(&x)).unwrap_or_default())]);
+            }
+            if !valid {
+              fail("pk_undecodable_accepted", &[("n", n.to_string()), ("what", what.to_string()), ("bytes", hex(&v))]);
+            }
+          }
+          (Some(Err(_)), Some(Ok(_))) => fail("pk_undecodable_accepted", &[("n", n.to_string()), ("what", what.to_string()), ("history", hist.into()), ("bytes", hex(&v))]),
+          (Some(Ok(_)), Some(Err(_))) => fail("pk_load_depends_on_history", &[("n", n.to_string()), ("what", what.to_string()), ("history", hist.into()), ("bytes", hex(&v)), ("loaded", "refused".into()), ("without_that_history", "accepted".into())]),
+          (Some(Err(_)), Some(Err(_))) => {}
+        }
+        // the variant with exchanged points is not the honest key
+        if what.starts_with("points") {
+          if let Some(Ok(b)) = &got {
+            if *b == pk {
+              fail("pk_load_depends_on_history", &[("n", n.to_string()), ("what", what.to_string()), ("history", hist.into()), ("bytes", hex(&v)), ("loaded", "the honest key, whose points for these tags differ".into())]);
+            }
+          }
+        }
+        let _ = valid;
+        case(true);
+      }
+      stat("oracle.C15.same_length_same_base_variants");
+    }
     // trailing bytes up to the limit are ignored, one more byte is refused
     if n % 16 == 0 || n == 255 || !q {
       for (total, want_ok) in [(MAX_SERIALIZED_PK_SIZE - 1, true), (MAX_SERIALIZED_PK_SIZE, true), (MAX_SERIALIZED_PK_SIZE + 1, false), (MAX_SERIALIZED_PK_SIZE + 1000, false)] {
